@@ -26,6 +26,8 @@ def gen_cases(tier, seed):
     for c in cases:
         n = c["n"]
         c["gclass"] = gen.G_CLASSES[n % 4] if n % 9 else "ones"
+        c["storage"] = ["plain", "plain", "strided", "transposed", "shared-base"][n % 5]
+        c["single_req"] = (n // 3) % 4 if (c["form"] == "functional" and n % 3 == 2) else None
         out.append(c)
         if c["op"] in KINK_OPS and n % 2 == 0:
             c2 = copy.deepcopy(c); c2["a"]["vclass"] = "withzeros"; c2["kink"] = True
@@ -56,6 +58,11 @@ def run_case(ns, mon, case):
     counters = {f"cases:{op.name}": 1}
     specs, xs = nncommon.materialize(case)
     req = [sp["diff"] for sp in specs]
+    dl = [i for i, r_ in enumerate(req) if r_]
+    if case.get("single_req") is not None and len(dl) > 1:
+        keep = dl[case["single_req"] % len(dl)]             # only one differentiable input requires grad
+        req = [i == keep for i in range(len(req))]
+        specs = [dict(sp, diff=req[i]) for i, sp in enumerate(specs)]
     try:
         ts, out = nncommon.forward(ns, case, xs, req=req)
     except Exception:
@@ -154,10 +161,10 @@ def run_case(ns, mon, case):
         else:
             mviol.append(v)
     nontrivial = (out.data.size > 1 or a.get("reduction") in ("mean", "sum")) and case["gclass"] != "ones"
-    key = (op.name, case["form"], json.dumps(a, sort_keys=True), case["gclass"], bool(case.get("kink"))) if nontrivial else None
+    key = (op.name, case["form"], json.dumps(a, sort_keys=True), case["gclass"], bool(case.get("kink")), case.get("storage"), case.get("single_req")) if nontrivial else None
     return {"key": key, "viol": viol + mviol, "counters": counters, "inconclusive": ninc,
             "cover": {"ops": [op.name], "forms": [f"{op.name}.{case['form']}"], "argclasses": [f"{op.name}:{argclass}"], "fd_modes": [mode],
-                      "gclasses": [case["gclass"]], "diff_inputs": [f"{op.name}:{sp['name']}" for sp in specs if sp["diff"]]}}
+                      "gclasses": [case["gclass"]], "storage": [case.get("storage", "plain")], "req_patterns": ["single" if case.get("single_req") is not None else "all"], "diff_inputs": [f"{op.name}:{sp['name']}" for sp in specs if sp["diff"]]}}
 
 
 def pool_tie_conditions(case, x, grad, g):
